@@ -14,10 +14,16 @@ class Packet:
         self.timestamp = timestamp
         self.binary = binary
 
-        self.ethernet = dpkt.ethernet.Ethernet(self.binary)
-
         self.tcp_packet = True
         self.udp_packet = False
+
+        try:
+            self.ethernet = dpkt.ethernet.Ethernet(self.binary)
+        except (dpkt.UnpackError, IndexError):
+            # frame that ends inside its link-layer header (snap length, runt frame; dpkt signals an exhausted
+            # MPLS label stack with IndexError): neither TCP nor UDP
+            self.tcp_packet = False
+            return
 
         if not (isinstance(self.ethernet.data, dpkt.ip.IP) or isinstance(self.ethernet.data, dpkt.ip6.IP6)):
             self.tcp_packet = False
